@@ -27,10 +27,11 @@ CHECKS = {
              "task-specific range theorems in Props/C01_<Task>.lean as they land. The model is tied to the code by value "
              "correspondence of the metric functions on the exact lattice; the range claim itself is searched on the "
              "real evaluate() of all 13 task modules with generators biased to degenerate shapes.",
-        note="Proved for the hit-based family and F; entropy-based scores (information gain, NCE/V, NMI, AMI) and the "
-             "per-task closed forms not yet covered by a theorem are supported by correspondence and the oracle only "
-             "(listed as unproved sub-claims in the evidence). Known findings: Cemgil > 1, standard_FPR precision > 1, pairwise/Rand 0/0 (NMI rounding noise was repaired by clipping "
-             "MI at 0; MI >= 0 is proved over the reals).",
+        note="Range theorems exist for every task family (Props/C01_<Task>.lean), incl. the entropy-based scores over the "
+             "reals (Props/C01_Entropy.lean: Shannon entropy in [0, log n], information gain in [0,1], 0 <= MI <= min(H,H'), "
+             "NMI, NCE over/under/F and V-measure scores in [0,1], AMI <= 1 via the hypergeometric expectation and "
+             "Vandermonde); binary64 rounding effects stay with correspondence and the oracle. Known findings: Cemgil > 1, standard_FPR precision > 1, pairwise/Rand 0/0, information gain nan for coincident "
+             "estimated beats (NMI rounding noise was repaired by clipping MI at 0).",
         design="§5 C01"),
     "C02": dict(
         text="Lean 4 proof that any non-empty annotation scored against a copy of itself under a criterion that accepts "
@@ -113,22 +114,32 @@ CHECKS = {
         text="Lean 4 proofs: weighted_accuracy is invariant under positive rescaling of the weights, is the weighted "
              "mean over comparable entries, is 1 / 0 when all comparable comparisons are 1 / 0; splitting an interval "
              "at an interior point changes no label at any instant, no frame label, no merged chord segmentation and "
-             "no chord score for any comparison function on abstract tokens (aligned contiguous annotations); "
-             "refinement oracle on chord.evaluate, segment metrics and hierarchy.lmeasure (exact on the lattice).",
-        note="End-to-end chord.evaluate invariance when the cut estimate interval is cropped by adjust_intervals, and "
-             "the frame-based segment / L-measure scores, rest on samples_split_invariant plus the refinement oracle.",
+             "no chord score for any comparison function on abstract tokens (for ARBITRARY annotations: no alignment, "
+             "contiguity or ordering needed); adjust_intervals commutes with cutting an interval (the cut survives or "
+             "disappears, exceptions alike); hence the whole chord.evaluate pipeline on tokens (span, adjust_intervals "
+             "of the estimate, merge_chord_intervals + under/overseg/seg, merge_labeled_intervals + durations + "
+             "weighted_accuracy under any comparison function) returns the same scores or the same exception after "
+             "cutting any reference interval (no hypothesis) or any estimate interval (only hypothesis: the rows after "
+             "the cut one start no earlier than its end; shown necessary), also when the cut interval is cropped or "
+             "padded; refinement oracle on chord.evaluate, segment metrics and hierarchy.lmeasure (exact on the lattice).",
+        note="The frame-based segment / L-measure scores rest on samples_split_invariant plus the refinement oracle; "
+             "chord labels enter the evaluate theorems as abstract tokens (one per distinct encoding, C10/C11).",
         design="§5 C12"),
     "C13": dict(
         text="Lean 4 proofs for time-ordered input of any size and arbitrary rational or absent crop points: "
              "adjust_intervals output spans [t_min, t_max], is ordered, stays inside the range, carries the documented "
              "label at every instant (partial, see findings), interpolate_intervals / intervals_to_samples give "
              "each time the label of the last closed interval containing it or the fill value, "
-             "merge_labeled_intervals is the common refinement with conserved duration, boundaries<->intervals are "
+             "merge_labeled_intervals is the common refinement with conserved duration, adjust_events on time-ordered "
+             "events returns exactly the documented list (events inside [t_min, t_max] in order, t_min / t_max added "
+             "with the synthetic labels exactly when missing; one-sided versions; range, order, both bounds present; "
+             "IndexError cases), boundaries<->intervals are "
              "mutually inverse on 5-decimal-exact contiguous segmentations; exhaustive small-scope correspondence in "
              "the thorough tier.",
         note="Repaired: zero-length intervals when an interval ends exactly at t_min / starts at t_max. Known findings that remain "
              "(full statements refuted in Lean, partial theorems proved): all intervals before t_min collapse to zero "
-             "length; an internal gap next to a crop point comes back labelled.",
+             "length; an internal gap next to a crop point comes back labelled; adjust_events keeps all events and adds no "
+             "t_min when no event reaches t_min, and raises IndexError when t_min is None and every event lies after t_max.",
         design="§5 C13"),
     "C14": dict(
         text="Lean 4 proofs for each of the 26 validators (array descriptors): only ok or ValueError can come out "
@@ -137,8 +148,11 @@ CHECKS = {
              "on valid and single-fault streams; oracle over every task entry point: valid inputs incl. degenerate and "
              "boundary-coincident shapes never raise, one single-fault corruption per documented fault class raises "
              "ValueError / InvalidChordException and nothing else.",
-        note="Totality of the metric bodies on valid input is established by the oracle, not by a theorem (except where a "
-             "task slice proves it). NaN and non-array containers are out of scope. Repaired: p_score int(NaN), zero-length crop in segment/chord.evaluate on boundary coincidence, beat.evaluate "
+        note="Totality of the metric bodies on valid input (valid => a result, and which exception classes can escape on ANY "
+             "input) is proved per task in Props/C14_<Task>.lean for beat, boundary, alignment, pattern, melody, multipitch, "
+             "transcription(+velocity), segment labelling and chord-level scoring, plus onset / tempo / hierarchy in their own "
+             "files; escapes found there (goto_threshold >= 1 -> IndexError, empty pattern occurrences -> ZeroDivisionError, "
+             "empty melody series -> IndexError, ...) are stated as refuted full statements with the exact escaping set. NaN and non-array containers are out of scope. Repaired: p_score int(NaN), zero-length crop in segment/chord.evaluate on boundary coincidence, beat.evaluate "
              "flattening 2-D input. Known findings that remain: negative multipitch frequency accepted (repairing it would turn a "
              "baseline XPASS test into XFAIL), one-level hierarchies never validated, chord TypeError on a zero-span reference, "
              "estimate entirely outside the reference span.",
@@ -148,11 +162,16 @@ CHECKS = {
              "contingency-table binomial sums, pairwise P/R/F, Rand and ARI equal their textbook formulas (with the "
              "code's special cases), ARI = 1 when the partitions coincide and never exceeds 1, vmeasure = "
              "nce(marginal=True) definitionally, V is the harmonic mean, MI is symmetric and equals the textbook sum "
-             "(over the reals), labels are compared case-insensitively; exact correspondence for the rational "
+             "(over the reals); also over the reals: _entropy is the Shannon entropy -sum p log p (>= 0, > 0 iff two or "
+             "more clusters), NMI = MI/max(sqrt(H H'), 1e-10), NCE over/under = 1 - H2(est|ref)/log2 k_est and "
+             "1 - H2(ref|est)/log2 k_ref (0 with fewer than two clusters), V-measure scores = 1 - H(.|.)/H(.) = MI/H(.) "
+             "(chain rule MI = H(est) - H(est|ref)), gammaln(k+1) = log k!, the AMI triple loop is the hypergeometric "
+             "expectation sum (k/n) log(nk/(ab)) C(a,k)C(n-a,b-k)/C(n,b) and AMI = (MI-EMI)/(max(H,H')-EMI), with "
+             "the one-cluster/empty early returns; labels are compared case-insensitively; exact correspondence for the rational "
              "indices, 1e-9 for the transcendental ones; thorough tier enumerates all pairs of restricted-growth "
              "label sequences up to 8 frames.",
-        note="AMI's expected-MI loop is transliterated and compared, not derived; NMI/NCE textbook forms over the reals "
-             "are not proved.",
+        note="The textbook forms are over the reals (the Real instance of the model's Transc class); the executed "
+             "Float instance is tied to them only through the shared definition and the 1e-9 correspondence.",
         design="§5 C16"),
     "C17": dict(
         text="Lean 4 proofs for all inputs: _count_inversions = #{(x,y) | x >= y}, _compare_frame_rankings = "
@@ -194,7 +213,9 @@ CHECKS = {
              "unchanged (chroma distance is even and 1200-periodic), RPA/RCA ignore the estimated voicing; oracles on "
              "the real code for all of these (octaves exactly, other factors with margins), key pairs exhaustively.",
         note="log2 is trusted (whole octaves rely on NumPy's log2 being exact up to cancellation; checked by the oracle). "
-             "Label-level respelling and chord.evaluate transposition rest on the oracle plus C10's encode model. Known "
+             "Label level: encode_respell / encode_transpose are proved over C10's encode model (Props/C09_Labels.lean), so all 12 "
+             "rules are invariant under joint transposition / respelling of LABELS; lifting this to chord.evaluate's weighted "
+             "averages rests on the oracle. Known "
              "findings: a frequency exactly at the 10 Hz base is treated as 'no pitch'.",
         design="§5 C09"),
     "C11": dict(
@@ -204,8 +225,9 @@ CHECKS = {
              "majmin => triads, sevenths => tetrads, a tetrads match is never a mirex mismatch, the vocabularies of "
              "majmin / sevenths / mirex / *_inv, X always ignored; the 12 real functions are compared with the model "
              "on ~5,200 labels (2,064 distinct encodings) and the lattice is asserted directly on the real functions.",
-        note="The model works on encodings produced by the real chord.encode (C10 proves encode's range, which is the "
-             "Reachable predicate). Known finding: majmin_inv compares a maj/min reference whose bass is 8-11 semitones "
+        note="Props/C11_Labels.lean bridges to C10: everything chord.encode can return is Reachable (encode_reachable), the "
+             "rule model's quality bitmaps equal the regenerated tables, and the lattice is restated for grammar-derivable "
+             "labels. Known finding: majmin_inv compares a maj/min reference whose bass is 8-11 semitones "
              "above the root although the docstring requires the bass to be a chord tone.",
         design="§5 C11"),
     "C15": dict(
@@ -217,7 +239,8 @@ CHECKS = {
              "decide; the abstraction is validated at run time for all 153 public functions (deep snapshots, repeat "
              "calls, read-only inputs, poisoned np.empty, shuffled call histories).",
         note="The translator's classification table (which NumPy/SciPy/builtin calls allocate, return views or write in "
-             "place) is trusted and validated, not verified. Bit-identical repeatability is observed, not modelled. "
+             "place) is trusted and validated, not verified. empty_init_sound (initOK => no path returns a partly written np.empty "
+             "buffer) is proved. Bit-identical repeatability is observed, not modelled. "
              "The findings (freq_to_voicing wrote the caller's voicing array; adjust_intervals/adjust_events and chord.evaluate "
              "appended to the caller's label list; bss_eval_images_framewise returned uninitialised isr) were repaired: safe / "
              "initOK now hold for every public function (util.intersect_files excepted: beyond the analysis, clean at run time).",
